@@ -477,7 +477,7 @@ func TestC07RekeyFlow(t *testing.T) {
 
 func TestC07NoIdleTeardown(t *testing.T) {
 	const sub = "C07.no_idle_teardown"
-	ev.Rule(sub, "rapid: two channels on a prompt wire, keep-alive timeout 150-300 ms, rekey disabled (1 h), steady bidirectional (or one-directional) tagged traffic every 10-30 ms for 5 keep-alive timeouts. Oracle: the number of InitHello messages on the wire stays at the initial one (a session that keeps receiving authenticated traffic is not torn down), all Sends succeed, every message delivered. non-trivial = traffic lasted >= 5 keep-alive timeouts; distinct by (timeout, gap, direction)")
+	ev.Rule(sub, "rapid: two channels on a prompt wire, keep-alive timeout 150-300 ms, rekey disabled (1 h), steady bidirectional (or one-directional) tagged traffic every 10-30 ms for 5 keep-alive timeouts. Oracle: no InitHello is sent after both sides hold a ready session (a session that keeps receiving authenticated traffic is not torn down), all Sends succeed, every message delivered. non-trivial = traffic lasted >= 5 keep-alive timeouts; distinct by (timeout, gap, direction)")
 	rapid.Check(t, func(t *rapid.T) {
 		kaMs := rapid.SampledFrom([]int{150, 200, 300}).Draw(t, "keepAliveMs")
 		gapMs := rapid.SampledFrom([]int{10, 20, 30}).Draw(t, "gapMs")
@@ -500,6 +500,9 @@ func TestC07NoIdleTeardown(t *testing.T) {
 		if err := b.send("m0", 2*time.Second); err != nil {
 			fail("initial Send failed: %v", err)
 		}
+		// The first handshake may retransmit its InitHello (back-off 10 ms) on a loaded machine; only
+		// InitHellos sent after both sides hold a ready session count as a new handshake.
+		ha0, hb0 := atomic.LoadInt64(&a.initHello), atomic.LoadInt64(&b.initHello)
 		n := 0
 		end := time.Now().Add(time.Duration(5*kaMs) * time.Millisecond)
 		for time.Now().Before(end) {
@@ -519,7 +522,7 @@ func TestC07NoIdleTeardown(t *testing.T) {
 			time.Sleep(time.Duration(gapMs) * time.Millisecond)
 		}
 		ev.Eval(sub)
-		ha, hb := atomic.LoadInt64(&a.initHello), atomic.LoadInt64(&b.initHello)
+		ha, hb := atomic.LoadInt64(&a.initHello)-ha0, atomic.LoadInt64(&b.initHello)-hb0
 		// The oracle only applies if traffic really was steady as seen by the receivers: under machine
 		// load the harness itself can stall longer than the keep-alive timeout, which makes a teardown legitimate.
 		maxGap := func(n *node) time.Duration {
@@ -547,8 +550,8 @@ func TestC07NoIdleTeardown(t *testing.T) {
 			ev.Sample(sub, fmt.Sprintf("%s messages=%d", desc, n))
 		}
 		if bidi {
-			if ha+hb != 1 {
-				fail("steady bidirectional traffic for 5 keep-alive timeouts, yet %d InitHello messages were sent (A %d, B %d): the session was torn down for idleness while receiving traffic", ha+hb, ha, hb)
+			if ha+hb != 0 {
+				fail("steady bidirectional traffic for 5 keep-alive timeouts, yet %d further InitHello messages were sent (A %d, B %d): the session was torn down for idleness while receiving traffic", ha+hb, ha, hb)
 			}
 		} else if hb != 0 {
 			fail("B kept receiving authenticated traffic, yet it started %d new handshakes", hb)
